@@ -132,6 +132,11 @@ package store
 //@   assert @af.Response: [rows-after-apply] applyCalled && applyOK
 //@   ghost update @s.isStaleRead: staleObs = true
 //@   ghost update @s.isStaleRead: staleVal = result
+//@   assert @?s.db.RequestWithContext: [writes-only-via-log] false
+//@   assert @?s.db.ExecuteWithContext: [writes-only-via-log] false
+//@   assert @?s.db.Request: [writes-only-via-log] false
+//@   assert @?s.db.Execute: [writes-only-via-log] false
+//@   assert @?s.db.ExecuteStringStmt: [writes-only-via-log] false
 //@   assert @s.db.QueryWithContext: [pragma-first] pragmaOK
 //@   assert @s.db.QueryWithContext: [strong-via-log] level != proto.ConsistencyLevel_STRONG
 //@   assert @s.db.QueryWithContext: [weak-leader] level == proto.ConsistencyLevel_WEAK ==> leaderObs
@@ -233,6 +238,12 @@ package store
 //@   ghost update @p.Check: pragmaOK = (result == nil)
 //@   ghost update @s.raft.State: leaderObs = (result == raft.Leader)
 //@   ghost update @s.Ready: readyObs = result
+//@   assert @?s.db.RequestWithContext: [writes-only-via-log] false
+//@   assert @?s.db.ExecuteWithContext: [writes-only-via-log] false
+//@   assert @?s.db.Request: [writes-only-via-log] false
+//@   assert @?s.db.Execute: [writes-only-via-log] false
+//@   assert @?s.db.ExecuteStringStmt: [writes-only-via-log] false
+//@   assert @?s.db.QueryWithContext: [writes-only-via-log] false
 //@   assert @s.execute: [pragma-first] pragmaOK && arg0 == ex
 //@   assert @s.execute: [leader-only] leaderObs && readyObs
 //@   assert @s.execute: [throttled] delayed
@@ -263,6 +274,11 @@ package store
 //@   ghost update @s.throttler.Delay: delayed = (result == nil)
 //@   ghost update @s.tryCompress: cb = result0
 //@   ghost update @s.tryCompress: cc = result1
+//@   assert @?s.db.RequestWithContext: [writes-only-via-log] false
+//@   assert @?s.db.ExecuteWithContext: [writes-only-via-log] false
+//@   assert @?s.db.Request: [writes-only-via-log] false
+//@   assert @?s.db.Execute: [writes-only-via-log] false
+//@   assert @?s.db.ExecuteStringStmt: [writes-only-via-log] false
 //@   assert @s.db.QueryWithContext: [pragma-first] pragmaOK
 //@   assert @s.db.QueryWithContext: [read-only-path] nRW == 0 && eqr.Level != proto.ConsistencyLevel_STRONG
 //@   assert @s.db.QueryWithContext: [weak-leader] eqr.Level == proto.ConsistencyLevel_WEAK ==> isLeader
